@@ -180,6 +180,11 @@ func ModOps(full bool) []Op {
 			add("DropReplace", p, ov)
 		}
 	}
+	// a free-standing comment block at the end of the file (whatever is added next comes after it); texts that
+	// would mean something if they were attached to a directive
+	add("AddComment", "// note")
+	add("AddComment", "// Deprecated: use example.com/other")
+	add("AddComment", "// indirect")
 	add("AddRetract", "v1.0.0", "v1.0.0", "")
 	add("AddRetract", "v1.1.0", "v1.1.0", "bad")
 	add("AddRetract", "v1.0.0", "v1.1.0", "range is bad")
